@@ -99,6 +99,14 @@ impl Binder {
             Some(Distinct::On(exprs)) => self.bind_exprs(exprs)?,
         };
 
+        // sub-queries are only unnested in WHERE and HAVING (see `plan_apply`); anywhere else they
+        // would reach the executor, which can not evaluate them
+        for list in [projection, orderby, distinct].into_iter().chain(groupby) {
+            if self.contains_subquery(list) {
+                return Err(ErrorKind::Todo("subquery outside of WHERE and HAVING".into()).into());
+            }
+        }
+
         let mut plan = from;
         self.plan_apply(&mut where_, &mut plan);
         plan = self.egraph.add(Node::Filter([where_, plan]));
@@ -364,6 +372,16 @@ impl Binder {
         list.dedup();
         let overs = self.egraph.add(Node::List(list.into()));
         Ok(self.egraph.add(Node::Window([overs, plan])))
+    }
+
+    /// Returns true if the expression `id` contains a subquery.
+    fn contains_subquery(&self, id: Id) -> bool {
+        let expr = self.node(id);
+        matches!(expr, Node::Max1Row(_) | Node::In(_) | Node::Exists(_))
+            || expr
+                .children()
+                .iter()
+                .any(|child| self.contains_subquery(*child))
     }
 
     /// Extract all subqueries from `id` and generate [`Apply`](Node::Apply) plans.
